@@ -44,6 +44,20 @@ Fourth round (Gen/CurveCurve.v, Gen/MinDist.v, Gen/Winding.v; the tables and com
     by Point values (dict_key_P), `d.values()`, `box.extend(<segment>)` and mutators of a box whose corners may be unset,
     `int(math.copysign(<k>, x))` and counters that only ever hold ints as Z, `%` of a run-time int.
 Everything outside these shapes is Untranslatable, as before.
+
+Fifth round (Gen/PathOps.v; the tables and comments marked `round 5` below) -- the path-level drivers:
+  * a BezierPath of which the `closed` flag matters as the pair (segments, closed) (('PATHC', t)); a segment together with its `_orig`
+    attribute ('TSEG'; a Line of it flattens to itself, tag included); `BezierPath.fromSegments(l)` as a fresh path whose flag is the one
+    BezierPath.__init__ sets, `p.closed = e` on it;
+  * a method call whose receiver and / or 'A' arguments are segments of unknown class and whose callee consumes fuel / may raise for some of
+    the classes (s.flatten(d), s.sample(n), a.intersections(b), curveDistance(a, b)): one `match` per unknown class, every arm lifted to
+    the union of the effects (seg_dispatch_x); a property that is a constant for some classes and a value for others (seg.hasLoop);
+  * `if X and <rest>:` with X an Optional tuple as `if X: if <rest>:`; Intersection objects that keep both segments ('IXSS', the _ixss
+    variants); `range()` of len(); `min(<list>)` (ValueError on an empty list); comprehensions with two generators; a function-level
+    `from beziers.. import f`;
+  * a local variable first assigned inside a loop and read after it (('U', t): reading it while it is unbound is `Raises
+    PyUnboundLocalError`, the constructor added to `pyexc`).
+Everything outside these shapes is Untranslatable, as before.
 """
 import ast, sys, os, hashlib, json
 from fractions import Fraction
@@ -92,20 +106,24 @@ FILE_OF = {'Point': 'Point', 'Line': 'Line', 'QuadraticBezier': 'Quad', 'CubicBe
            'Node': 'Nodelist', 'SegmentRepresentation': 'Nodelist', 'linesweep': 'Sweep',
            'MinimumCurveDistanceFinder': 'MinDist'}
 FILE_ORDER = ['Utils', 'Point', 'Affine', 'BBox', 'Line', 'Quad', 'Cubic', 'Shapes', 'Fit', 'CurveDist', 'Sample', 'Nodelist', 'Sweep', 'Split',
-              'CurveCurve', 'MinDist', 'Winding']
+              'CurveCurve', 'MinDist', 'Winding', 'PathOps']
 # leaves of the import graph: no other generated file imports them (so adding one leaves the text of the others unchanged)
-LEAF_FILES = {'Shapes', 'Fit', 'Sample', 'Nodelist', 'Sweep', 'Split', 'CurveCurve', 'MinDist', 'Winding'}
+LEAF_FILES = {'Shapes', 'Fit', 'Sample', 'Nodelist', 'Sweep', 'Split', 'CurveCurve', 'MinDist', 'Winding', 'PathOps'}
 # ... except for the ones named here (the types `outcome` / `pyexc` and the list helpers live in the prelude of Gen/Sample.v)
 EXTRA_DEPS = {'Nodelist': ['Sample'], 'Sweep': ['Sample', 'Nodelist'], 'CurveCurve': ['Sample', 'Split'], 'MinDist': ['Sample'],
-              'Winding': ['Sample', 'Nodelist', 'Split', 'CurveCurve']}
+              'Winding': ['Sample', 'Nodelist', 'Split', 'CurveCurve'],
+              'PathOps': ['Sample', 'Nodelist', 'Split', 'CurveCurve', 'MinDist']}
 # methods emitted into another file than the one of the receiver's class (keyed by the DEFINING class)
-FILE_OF_DEFCLASS = {'SampleMixin': 'Sample'}
+FILE_OF_DEFCLASS = {'SampleMixin': 'Sample', 'BooleanOperationsMixin': 'PathOps'}
 # ... or keyed by the method name (the flatteners call the sampling methods, so they live with them)
 FILE_OF_METHOD = {'flatten': 'Sample', 'splitAtPoints': 'Split', 'addExtremes': 'Split',
                   '_curve_curve_intersections_t': 'CurveCurve', '_curve_curve_intersections': 'CurveCurve', 'intersections': 'CurveCurve',
                   'curveDistance': 'MinDist', 'windingNumberOfPoint': 'Winding', 'pointIsInside': 'Winding', 'addMargin': 'Winding'}
 # ... or by the class and the name (BezierPath.bounds; Segment.bounds stays with its class)
-FILE_OF_CLASS_METHOD = {('BezierPath', 'bounds'): 'Winding'}
+FILE_OF_CLASS_METHOD = {('BezierPath', 'bounds'): 'Winding',
+                        # round 5: the path-level drivers
+                        ('BezierPath', 'flatten'): 'PathOps', ('BezierPath', 'distanceToPath'): 'PathOps', ('BezierPath', 'signed_area'): 'PathOps',
+                        ('BezierPath', 'area'): 'PathOps', ('BezierPath', 'direction'): 'PathOps'}
 # modules whose module-level constants are emitted as named definitions (elsewhere they are inlined at the use)
 NAMED_GLOBAL_MODULES = {'path/geometricshapes.py'}
 MODULE_OF_CLASS = {'Point': 'point.py', 'Line': 'line.py', 'QuadraticBezier': 'quadraticbezier.py',
@@ -114,8 +132,9 @@ MODULE_OF_CLASS = {'Point': 'point.py', 'Line': 'line.py', 'QuadraticBezier': 'q
                    'ArcLengthMixin': 'utils/arclengthmixin.py', 'IntersectionsMixin': 'utils/intersectionsmixin.py',
                    'SampleMixin': 'utils/samplemixin.py', 'CurveFit': 'utils/curvefitter.py', 'BezierPath': 'path/__init__.py',
                    'Node': 'path/representations/Nodelist.py', 'SegmentRepresentation': 'path/representations/Segment.py',
-                   'MinimumCurveDistanceFinder': 'utils/curvedistance.py'}
-MRO = {'BezierPath': ['BezierPath', 'SampleMixin'],     # BooleanOperationsMixin (pyclipper) is outside the model
+                   'MinimumCurveDistanceFinder': 'utils/curvedistance.py', 'BooleanOperationsMixin': 'utils/booleanoperationsmixin.py'}
+# (round 5: of BooleanOperationsMixin only getSelfIntersections is modelled; everything that touches pyclipper is Untranslatable)
+MRO = {'BezierPath': ['BezierPath', 'BooleanOperationsMixin', 'SampleMixin'],
        'Node': ['Node'], 'SegmentRepresentation': ['SegmentRepresentation'], 'MinimumCurveDistanceFinder': ['MinimumCurveDistanceFinder'],
        'Point': ['Point'], 'AffineTransformation': ['AffineTransformation'], 'BoundingBox': ['BoundingBox'], 'CurveFit': ['CurveFit'],
        'Line': ['Line', 'Segment', 'IntersectionsMixin', 'SampleMixin'],
@@ -203,15 +222,30 @@ RECURSIVE[('MinimumCurveDistanceFinder', 'minDist')] = {'ret': ('T', ('S', 'S', 
 # 'IXS': an Intersection object together with its attribute seg1, `(segment T * (T * pt T * T))`.  The earlier rounds' 'IX' drops the
 # two segments (nothing read them).  windingNumberOfPoint reads `i.seg1`: while it is translated (IXS_ROOTS) the functions that build
 # Intersections (IXS_FUNCTIONS) are translated once more, into Gen/Winding.v under the suffix _ixs, with Intersection(..) as an 'IXS'.
-IXS_ROOTS = {('BezierPath', 'windingNumberOfPoint')}
-IXS_FUNCTIONS = {'intersections', '_curve_line_intersections', '_line_line_intersections'}
+# round 5: getSelfIntersections hands the Intersection objects themselves to its caller: they keep both segments ('IXSS'); the functions
+# that build them are translated a third time, into Gen/PathOps.v under the suffix _ixss (the curve-curve ones too: these carry effects).
+IXS_ROOTS = {('BezierPath', 'windingNumberOfPoint'): 'ixs', ('BezierPath', 'getSelfIntersections'): 'ixss'}
+IXS_FUNCTIONS = {'ixs': {'intersections', '_curve_line_intersections', '_line_line_intersections'},
+                 'ixss': {'intersections', '_curve_line_intersections', '_line_line_intersections', '_curve_curve_intersections'}}
+IXS_FILE = {'ixs': 'Winding', 'ixss': 'PathOps'}
 # functions in which an `if` whose branches consume fuel / may raise, followed by more code, is joined through the outcome of
 # the branches (`match (if c then .. else ..) with Some (Returns <the variables they assign>) => <the rest> ..`) instead of
 # continuing each branch by a copy of the rest (what the earlier rounds do; their text must not change)
 JOIN_EFFECTS = {('QuadraticBezier', '_curve_curve_intersections_t'), ('CubicBezier', '_curve_curve_intersections_t'),
-                ('MinimumCurveDistanceFinder', 'minDist')}
+                ('MinimumCurveDistanceFinder', 'minDist'),
+                ('BezierPath', 'distanceToPath')}     # (round 5: for the tuple assigned in a joined branch, `closestPair = (s1, s2)`, to keep its structure; see bind)
 
 
+# ---- round 5: the path-level drivers (path/__init__.py, utils/booleanoperationsmixin.py) ---------------------------------------------------
+# 'TSEG': a segment together with its `_orig` attribute, `(segment T * option (segment T))` (as 'EDGE' for a Line: Some c when
+#   `x._orig = c` has been executed on the object, None when it has no such attribute).  Only a Line's tag is ever looked at (Line.flatten
+#   returns the receiver itself, tag included); attributes and pure methods are the segment's.
+# ('PATHC', t): a BezierPath of which the attribute `closed` matters too: the pair (the list asSegments() returns, closed), t the type of
+#   the segments ('TSEG' for the receiver of flatten, 'EDGE' for the path flatten builds).  A value built in the function itself
+#   (BezierPath.fromSegments(l), then `p.closed = e`) is kept as its two components (Val.items).
+# 'IXSS': an Intersection object with both its segments, `(segment T * segment T * (T * pt T * T))` (seg1, seg2, (t1, point, t2)); see IXS_ROOTS.
+# ('U', t): a local variable that is first assigned inside a loop and read after it: None while it is unbound.  Reading it (and
+#   nothing else) unwraps it: `Raises PyUnboundLocalError` on None (FunTx.read_unbound).
 def obj_type(cls, abs_texts): return ('OBJ', cls, tuple(abs_texts))
 def obj_state_type(cls): return ('T', tuple(t for _, t in OBJECTS[cls]['state'])) if len(OBJECTS[cls]['state']) > 1 else OBJECTS[cls]['state'][0][1]
 def abs_coqty(a):
@@ -225,7 +259,7 @@ def tmatch(a, b):
     if a == '?': return b
     if b == '?': return a
     if isinstance(a, tuple) and isinstance(b, tuple) and a[0] == b[0]:
-        if a[0] in ('L', 'O', 'F', 'X', 'DQ', 'IT'):
+        if a[0] in ('L', 'O', 'F', 'X', 'DQ', 'IT', 'U', 'PATHC'):
             m = tmatch(a[1], b[1])
             return (a[0], m) if m is not None else None
         if a[0] == 'T' and len(a[1]) == len(b[1]):
@@ -250,6 +284,8 @@ def coqty(t):
     if t == 'PATH': return 'list (segment T)'
     if t == 'IX': return '(T * pt T * T)%type'
     if t == 'IXS': return '(segment T * (T * pt T * T))%type'
+    if t == 'IXSS': return '(segment T * segment T * (T * pt T * T))%type'      # round 5
+    if t == 'TSEG': return '(segment T * option (segment T))%type'
     if t == 'NT': return 'nodetype'
     if t == 'NODE': return 'gnode T'
     if t == 'SREP': return 'segrep T'
@@ -268,6 +304,8 @@ def coqty(t):
         if t[0] == 'DICT': return f'list (({coqty(t[1])} * {coqty(t[2])})%type)'
         if t[0] == 'FUN': return '(' + ' -> '.join([coqty(x) for x in t[1]] + [coqty(t[2])]) + ')'
         if t[0] == 'O': return f'option ({coqty(t[1])})'
+        if t[0] == 'U': return f'option ({coqty(t[1])})'       # round 5: a local variable that may still be unbound (None)
+        if t[0] == 'PATHC': return f'(list ({coqty(t[1])}) * bool)%type'
         if t[0] == 'F': return f'option ({coqty(t[1])})'       # fuelled: None = the fuel ran out
         if t[0] == 'X': return f'outcome ({coqty(t[1])})'      # may raise: Returns v | Raises e
         if t[0] == 'T': return '(' + ' * '.join(coqty(x) for x in t[1]) + ')%type'
@@ -391,6 +429,8 @@ SIG = {
     ('MinimumCurveDistanceFinder', 'minDist'): [('T', ('S', 'S')), ('T', ('S', 'S')), 'S'],
     # round 4 -- path/__init__.py
     ('BezierPath', 'windingNumberOfPoint'): ['P'], ('BezierPath', 'pointIsInside'): ['P'],
+    # round 5 -- path/__init__.py: the other path as the list of its segments; `samples` a number
+    ('BezierPath', 'flatten'): ['S'], ('BezierPath', 'distanceToPath'): ['PATH', 'S'],
 }
 # effect table: what a function can do besides returning a value.  'fuel': it contains a data-dependent `while` loop (or calls
 # such a function): the definition takes `fuel : nat` first -- the number of iterations every loop invocation may use -- and
@@ -416,6 +456,10 @@ EFFECTS = {
     ('MinimumCurveDistanceFinder', 'minDist'): {'fuel', 'exc'}, ('mod:utils/curvedistance.py', 'curveDistance'): {'fuel', 'exc'},
     # round 4 -- a BoundingBox whose corners are still None used as a box (an empty path: addMargin adds a Point to None)
     ('BezierPath', 'bounds'): {'exc'}, ('BezierPath', 'windingNumberOfPoint'): {'exc'}, ('BezierPath', 'pointIsInside'): {'exc'},
+    # round 5 -- the per-class flatteners (fuel: the sampling loops; IndexError of rSamples[-1]); the curve-curve recursion and
+    # AssertionError; the sampling loops, the recursion of minDist, ValueError of min([]), UnboundLocalError of closestPair
+    ('BezierPath', 'flatten'): {'fuel', 'exc'}, ('BezierPath', 'getSelfIntersections'): {'fuel', 'exc'}, ('BezierPath', 'distanceToPath'): {'fuel', 'exc'},
+    ('BezierPath', 'signed_area'): {'fuel', 'exc'}, ('BezierPath', 'area'): {'fuel', 'exc'}, ('BezierPath', 'direction'): {'fuel', 'exc'},
 }
 # 'EDGE': a Line together with its `_orig` attribute, `(seg2 T * option (segment T))`: Some c when `line._orig = c` has been
 # executed on it, None for a Line that was never tagged (reading the attribute would be an AttributeError; nothing reads it).
@@ -423,7 +467,10 @@ EFFECTS = {
 # Receivers whose own `_orig` is part of the result come in as EDGE:
 SELF_TY = {('Line', 'flatten'): 'EDGE',
            # round 4: the receiver's `_range` is read
-           ('QuadraticBezier', '_curve_curve_intersections_t'): ('RNG', 'seg3'), ('CubicBezier', '_curve_curve_intersections_t'): ('RNG', 'seg4')}
+           ('QuadraticBezier', '_curve_curve_intersections_t'): ('RNG', 'seg3'), ('CubicBezier', '_curve_curve_intersections_t'): ('RNG', 'seg4'),
+           # round 5: the segments' `_orig` and the flag `closed` are part of the result
+           ('BezierPath', 'flatten'): ('PATHC', 'TSEG'), ('BezierPath', 'signed_area'): ('PATHC', 'TSEG'), ('BezierPath', 'area'): ('PATHC', 'TSEG'),
+           ('BezierPath', 'direction'): ('PATHC', 'TSEG')}
 
 
 def effects_of(cls, name, consts=()):
@@ -619,7 +666,7 @@ class Translator:
         self.rec_info = {}    # round 4: key of a self-recursive function being translated -> (coqname, declared result type, file)
         self.rec_used = set()
         self.extras = {}      # coqname -> the formats ("%.2f") whose abstract parameters (fmt_2f, keq) the definition takes after O
-        self.ixs_mode = False # round 4: inside an IXS_ROOTS function: Intersection objects keep their seg1 ('IXS')
+        self.ixs_mode = False # round 4: inside an IXS_ROOTS function: Intersection objects keep their seg1 ('IXS': 'ixs') / both segments ('IXSS': 'ixss')
 
     # ------------------------------------------------------------------ helpers
     def fresh(self, base):
@@ -653,6 +700,8 @@ class Translator:
             # round 4: an object whose attributes are known one by one: the tuple of its state
             fs = [self.typed_text(v.const['fields'][fa], fty) for fa, fty in OBJECTS[v.ty[1]]['state']]
             return '(' + ', '.join(fs) + ')' if len(fs) > 1 else fs[0]
+        if isinstance(v.ty, tuple) and v.ty[0] == 'PATHC' and v.tx is None:
+            return '(' + self.text(v.items[0]) + ', ' + self.text(v.items[1]) + ')'      # round 5: (segments, closed)
         if v.tx is None: raise Untranslatable(f'no text for {v!r}')
         return v.tx
 
@@ -769,7 +818,7 @@ class Translator:
     def function(self, cls, name, consts=()):
         """translate method `name` for receiver class `cls` (or module function when cls startswith 'mod:')"""
         key = (cls, name, consts)
-        if self.ixs_mode and name in IXS_FUNCTIONS: key = (cls, name, consts, 'ixs')
+        if self.ixs_mode and name in IXS_FUNCTIONS[self.ixs_mode]: key = (cls, name, consts, self.ixs_mode)
         if key in self.done: return self.done[key]
         if key in self.inprogress:
             if key in self.rec_info:        # a declared self-recursive function calling itself (callfun checks who is calling)
@@ -779,7 +828,7 @@ class Translator:
         self.inprogress.add(key)
         saved_cands = (self.fn_cands, self.cell_cands)
         saved_ixs = self.ixs_mode
-        if (cls, name) in IXS_ROOTS: self.ixs_mode = True
+        if (cls, name) in IXS_ROOTS: self.ixs_mode = IXS_ROOTS[(cls, name)]
         try:
             return self.function_(cls, name, consts, key)
         finally:
@@ -851,10 +900,10 @@ class Translator:
                 env[pn] = Val(ty, 'v_' + pn)
                 coqparams.append(f'(v_{pn} : {coqty(ty)})')
         cname += suffix
-        ixs = len(key) == 4 and key[3] == 'ixs'
+        ixs = key[3] if len(key) == 4 else False
         if ixs:
-            if eff: raise Untranslatable(f'{cls}.{name}: no variant with Intersection.seg1 for a function with effects')
-            cname += '_ixs'; file = 'Winding'
+            if eff and ixs == 'ixs': raise Untranslatable(f'{cls}.{name}: no variant with Intersection.seg1 for a function with effects')
+            cname += '_' + ixs; file = IXS_FILE[ixs]
         fd, cells, lfuns = prepare_closures(fd, path)
         self.fn_cands, self.cell_cands = tuple(lfuns), tuple(cells)
         fx = FunTx(self, path, cls if selfty else None, fd)
@@ -862,7 +911,7 @@ class Translator:
         fx.cells = tuple(cells)
         fx.closure_params = getattr(fd, '_closure_params', set())
         fx.join_effects = (cls, name) in JOIN_EFFECTS
-        fx.ixs = ixs
+        fx.ixs = ixs or IXS_ROOTS.get((cls, name), False)       # (round 5: the root itself may build Intersections)
         stateful = (cls, name) in STATEFUL
         if stateful and (rec is None or selfty is None or cls not in OBJECTS): raise Untranslatable(f'{cls}.{name}: a state-changing method must be a declared recursive method of an OBJECTS class')
         if rec is not None:
@@ -956,7 +1005,7 @@ RET = {('Line', 'findExtremes'): ('L', 'S')}
 RET_REFINE = {('QuadraticBezier', '_curve_line_intersections'): ('L', 'IX'), ('CubicBezier', '_curve_line_intersections'): ('L', 'IX')}
 # round 4: immutable library values computed at translation time, Val('K', const=('py', obj)): the constructors, methods without
 # arguments and int attributes that may be applied to them (Decimal(str(precision)).as_tuple().exponent)
-RANGE_Z_FILES = {'MinDist'}     # round 4: the generated files whose prelude has range_Z
+RANGE_Z_FILES = {'MinDist', 'PathOps'}     # round 4: the generated files whose prelude has range_Z (round 5: or that import it)
 PY_PURE_METHODS = {('Decimal', 'as_tuple')}
 PY_PURE_ATTRS = {('DecimalTuple', 'exponent')}
 PYEXC = {'ValueError': 'PyValueError', 'IndexError': 'PyIndexError'}
@@ -1064,6 +1113,8 @@ class FunTx:
         self.recursive = False       # round 4: RECURSIVE (the body is the `S fuel_` arm of a Fixpoint on fuel)
         self.in_stateful_call = False
         self.ixs = False             # round 4: Intersection(..) as an 'IXS' (with seg1)
+        self.unbound_memo = {}       # round 5: per statement: possibly-unbound variable -> (its text, the value a read of it found)
+        self.local_imports = {}      # round 5: names bound by a function-level `from beziers.. import f` -> module path
 
     def fresh(self, base):
         self.counter += 1
@@ -1112,13 +1163,15 @@ class FunTx:
             if isinstance(v, float): return self.lit_float(n)
             self.fail(f'constant {v!r}', n)
         if isinstance(n, ast.Name):
-            if n.id in env: return env[n.id]
+            if n.id in env:
+                if isinstance(env[n.id].ty, tuple) and env[n.id].ty[0] == 'U': return self.read_unbound(n, env)      # round 5
+                return env[n.id]
             if n.id in self.localfuns: return Val('K', const=('localfun', n.id))
             g = self.global_const(n.id, n)
             if g is not None: return g
             if n.id in ('Point', 'Line', 'QuadraticBezier', 'CubicBezier', 'AffineTransformation'):
                 return Val('K', const=('class', n.id))
-            if n.id == 'BezierPath' and imports_name(self.path, 'BezierPath', 'beziers.path'):
+            if n.id == 'BezierPath' and (imports_name(self.path, 'BezierPath', 'beziers.path') or self.names_class('BezierPath')):      # (round 5: or inside its own module)
                 return Val('K', const=('class', 'BezierPath'))
             if n.id in RECORD_OF_CLASS and self.names_class(n.id):
                 return Val('K', const=('class', n.id))
@@ -1342,6 +1395,8 @@ class FunTx:
             else:
                 t = f'(match {v.tx} with None => false | Some _ => true end)'
             return Val('B', f'(negb {t})') if negate else Val('B', t)
+        if isinstance(v.ty, tuple) and v.ty[0] == 'T' and len(v.ty[1]) > 0:      # round 5: a non-empty tuple
+            return Val('K', const=not True if negate else True)
         if v.ty == 'M' or v.ty == 'P' or v.ty in SEGN:
             self.always_truthy(v.ty, n)
             return Val('K', const=not True if negate else True)
@@ -1487,6 +1542,7 @@ class FunTx:
         """text of a Python int (a literal or a run-time 'Z') as a Coq Z"""
         if v.ty == 'I': return f'({v.const})%Z'
         if v.ty == 'Z': return v.tx
+        if v.ty == 'LEN': return f'(Z.of_nat (length {v.tx}))'      # round 5: len(l) of a dynamic list
         self.fail(f'expected an int, got {v.ty!r}')
 
     def unify(self, a, b, n):
@@ -1527,6 +1583,10 @@ class FunTx:
         for x, y in ((ta, tb), (tb, ta)):
             if isinstance(x, tuple) and x[0] == 'O' and x[1] == '?' and not (isinstance(y, tuple) and y[0] == 'O') and y != '?':      # round 4
                 return (tr.text(a) if ta == x else f'(Some ({tr.text(a)}))', tr.text(b) if tb == x else f'(Some ({tr.text(b)}))', ('O', y))
+        for x, y in ((ta, tb), (tb, ta)):
+            # round 5: a variable that may be unbound, assigned on one side only
+            if isinstance(x, tuple) and x[0] == 'U' and not (isinstance(y, tuple) and y[0] == 'U') and y != '?' and tmatch(x[1], y) is not None:
+                return (tr.text(a) if ta == x else f'(Some ({tr.text(a)}))', tr.text(b) if tb == x else f'(Some ({tr.text(b)}))', ('U', tmatch(x[1], y)))
         if a.ty == 'FL' and not a.items and isinstance(tb, tuple) and tb[0] == 'L': return ('[]', tr.text(b), tb)
         if b.ty == 'FL' and not b.items and isinstance(ta, tuple) and ta[0] == 'L': return (tr.text(a), '[]', ta)
         self.fail(f'branches of different types {ta!r} / {tb!r}', n)
@@ -1548,6 +1608,17 @@ class FunTx:
         if isinstance(n.value, ast.Name) and n.value.id == 'pyclipper': self.fail('pyclipper', n)
         v = self.expr(n.value, env)
         a = n.attr
+        if v.ty == 'EDGE':
+            # round 5: a Line with its `_orig`; everything else is the Line's
+            if a == '_orig': self.fail('reading ._orig (an AttributeError when the Line was never tagged)', n)
+            v = Val('seg2', f'(fst {v.tx})')
+        if v.ty == 'TSEG':
+            # round 5: a segment of unknown class with its `_orig`: a method sees the whole value (Line.flatten returns the receiver, tag
+            # included), attributes are the segment's
+            if a == '_orig': self.fail('reading ._orig (an AttributeError when the segment was never tagged)', n)
+            if all(self.has_attr(CLASS_OF[t], a) for _, t in SEGSUM) and not any('property' in decorators(find_def(CLASS_OF[t], a)[1]) for _, t in SEGSUM):
+                return Val('K', const=('bounddyn', a, v))
+            v = Val('SEG', f'(fst {v.tx})')
         if isinstance(v.ty, tuple) and v.ty[0] == 'RNG':
             # round 4: a curve with its `_range`; everything else is the segment's (a method that reads the range gets the whole value back)
             if a == '_range': return Val('FL', items=[Val('S', f'(rg_lo {v.tx})'), Val('S', f'(rg_hi {v.tx})')])
@@ -1616,13 +1687,35 @@ class FunTx:
                 self.tr.fingerprints['path/__init__.py:BezierPath.asSegments'] = fingerprint(find_def('BezierPath', 'asSegments')[1])
                 return Val('K', const=('asSegments', v))
             return self.property_or_method(v, a, n)
+        if isinstance(v.ty, tuple) and v.ty[0] == 'PATHC':
+            # round 5: a path as (segments, closed)
+            segs, closed = self.pathc_parts(v)
+            if a == 'asSegments':
+                self.tr.fingerprints['path/__init__.py:BezierPath.asSegments'] = fingerprint(find_def('BezierPath', 'asSegments')[1])
+                return Val('K', const=('asSegments', segs))
+            if a == 'closed':
+                self.path_init_closed(n)
+                return closed
+            try: path, fd, defcls = find_def('BezierPath', a)
+            except KeyError: self.fail(f'BezierPath has no attribute {a} in the model', n)
+            if 'property' in decorators(fd): return self.callfun('BezierPath', a, [v], n)
+            return Val('K', const=('bound', 'BezierPath', a, v))
         if v.ty == 'SEG':
             kinds = {('property' in decorators(find_def(CLASS_OF[t], a)[1])) for _, t in SEGSUM if self.has_attr(CLASS_OF[t], a)}
             if len(kinds) != 1 or not all(self.has_attr(CLASS_OF[t], a) for _, t in SEGSUM): self.fail(f'attribute .{a} is not the same kind of thing in the three classes of segment', n)
-            if kinds == {True}: return self.seg_dispatch(v, lambda c, sv: self.callfun(c, a, [sv], n), n)
+            if kinds == {True}:
+                sp = self.seg_property(v, a, n)      # round 5
+                if sp is not None: return sp
+                return self.seg_dispatch(v, lambda c, sv: self.callfun(c, a, [sv], n), n)
             return Val('K', const=('bounddyn', a, v))
         if v.ty == 'IXS':
             if a == 'seg1': return Val('SEG', f'(fst {v.tx})')
+            if a == 't1': return Val('S', f'(fst (fst (snd {v.tx})))')
+            if a == 'point': return Val('P', f'(snd (fst (snd {v.tx})))')
+            if a == 't2': return Val('S', f'(snd (snd {v.tx}))')
+        if v.ty == 'IXSS':      # round 5
+            if a == 'seg1': return Val('SEG', f'(fst (fst {v.tx}))')
+            if a == 'seg2': return Val('SEG', f'(snd (fst {v.tx}))')
             if a == 't1': return Val('S', f'(fst (fst (snd {v.tx})))')
             if a == 'point': return Val('P', f'(snd (fst (snd {v.tx})))')
             if a == 't2': return Val('S', f'(snd (snd {v.tx}))')
@@ -1640,6 +1733,62 @@ class FunTx:
             if a in ('D', 'S'): return Val('K', const=('cdfmethod', a, v))
         self.fail(f'attribute .{a} of {v.ty!r}', n)
 
+    def pathc_parts(self, v):
+        """round 5: the two components (segments, closed) of a ('PATHC', t) value"""
+        if v.tx is None: return v.items[0], v.items[1]
+        return Val(('L', v.ty[1]), f'(fst {v.tx})'), Val('B', f'(snd {v.tx})')
+
+    def path_init_closed(self, n):
+        """round 5: `closed` must be a plain attribute of BezierPath, set by `self.closed = <bool literal>` in an __init__ that is a list of
+        assignments of constants to attributes; returns the literal (the flag of a path fresh from its constructor)"""
+        for k in MRO['BezierPath']:
+            for x in module(MODULE_OF_CLASS[k])[1].body:
+                if isinstance(x, ast.ClassDef) and x.name == k:
+                    for m in x.body:
+                        names = [m.name] if isinstance(m, ast.FunctionDef) else [t.id for t in getattr(m, 'targets', []) if isinstance(t, ast.Name)]
+                        if 'closed' in names or '__setattr__' in names or '__getattr__' in names or '__getattribute__' in names or '__slots__' in names:
+                            self.fail(f'{k} defines {names[0]}: `closed` is not a plain attribute', n)
+        path, fd, defcls = find_def('BezierPath', '__init__')
+        me = fd.args.args[0].arg
+        found = None
+        if len(fd.args.args) != 1 or fd.args.vararg or fd.args.kwarg or fd.args.kwonlyargs: self.fail('BezierPath.__init__ takes arguments', n)
+        for st in fd.body:
+            if isinstance(st, ast.Expr) and isinstance(st.value, ast.Constant): continue
+            if not (isinstance(st, ast.Assign) and len(st.targets) == 1 and isinstance(st.targets[0], ast.Attribute) and isinstance(st.targets[0].value, ast.Name)
+                    and st.targets[0].value.id == me and isinstance(st.value, ast.Constant)):
+                self.fail('BezierPath.__init__ is not a list of assignments of constants to attributes', n)
+            if st.targets[0].attr == 'closed':
+                if found is not None or type(st.value.value) is not bool: self.fail('BezierPath.__init__ does not set .closed to one bool literal', n)
+                found = st.value.value
+        if found is None: self.fail('BezierPath.__init__ does not set .closed', n)
+        self.tr.fingerprints[f'{path}:{defcls}.__init__'] = fingerprint(fd)
+        return found
+
+    def check_fromSegments(self, n):
+        """round 5: BezierPath.fromSegments must be the function the model of it was written for: a fresh path (klass() is BezierPath()) whose
+        representation is SegmentRepresentation(self, array) -- which keeps the list `array` itself (or a fresh [] when it is empty)"""
+        path, fd, defcls = find_def('BezierPath', 'fromSegments')
+        want = ast.parse('self = klass()\nfor a in array:\n    assert isinstance(a, Segment)\nself.activeRepresentation = SegmentRepresentation(self, array)\nreturn self').body
+        body = [b for b in fd.body if not (isinstance(b, ast.Expr) and isinstance(b.value, ast.Constant))]
+        if [a.arg for a in fd.args.args] != ['klass', 'array'] or 'classmethod' not in decorators(fd) or fd.args.vararg or fd.args.kwarg or fd.args.kwonlyargs or fd.args.defaults \
+                or [ast.dump(b) for b in body] != [ast.dump(b) for b in want]:
+            self.fail('BezierPath.fromSegments is not the constructor the model was written for', n)
+        self.tr.fingerprints[f'{path}:{defcls}.fromSegments'] = fingerprint(fd)
+        self.tr.fingerprints['path/representations/Segment.py:SegmentRepresentation.__init__'] = fingerprint(find_def('SegmentRepresentation', '__init__')[1])
+        self.tr.fingerprints['path/representations/Segment.py:SegmentRepresentation.data'] = fingerprint(find_def('SegmentRepresentation', 'data')[1])
+
+    def fresh_list_handover(self, call, n):
+        """round 5: `X = BezierPath.fromSegments(L)`: the new path KEEPS the list object L.  The model has values: it is only right when
+        nothing updates or reads L afterwards.  Required: the call is the right-hand side of a statement at the top level of the
+        function body, L is a local variable, and no statement after that one mentions L."""
+        arg = call.args[0]
+        if not isinstance(arg, ast.Name): self.fail('BezierPath.fromSegments of something that is not a local variable', n)
+        idx = next((i for i, st in enumerate(self.fd.body) if isinstance(st, ast.Assign) and st.value is call), None)
+        if idx is None: self.fail('BezierPath.fromSegments(..) elsewhere than as the right-hand side of a top-level assignment', n)
+        if arg.id in [a.arg for a in self.fd.args.args]: self.fail(f'the list {arg.id} handed to BezierPath.fromSegments is a parameter (its owner may update it)', n)
+        for st in self.fd.body[idx + 1:]:
+            if any(isinstance(y, ast.Name) and y.id == arg.id for y in ast.walk(st)): self.fail(f'the list {arg.id} is used after it was handed to BezierPath.fromSegments', n)
+
     def obj_fields(self, v):
         """round 4: the mutable attributes of an ('OBJ', ..) value: as assigned so far, or projections of its run-time state"""
         if v.tx is None: return dict(v.const['fields'])
@@ -1652,6 +1801,21 @@ class FunTx:
                 if i > 0: t = f'(snd {t})'
             out[fa] = Val(fty, t)
         return out
+
+    def read_unbound(self, n, env):
+        """round 5: a read of a local variable that may still be unbound (('U', t): first assigned inside a loop, read after it): Python raises
+        UnboundLocalError when it is.  The check is made where the read stands, in evaluation order with the other operations of the
+        statement that may raise; a second read in the same statement sees the value the first one found."""
+        v = env[n.id]
+        if isinstance(n.ctx, ast.Load) is False: self.fail(f'{n.id} (possibly unbound) is not read here', n)
+        if v.tx is None: self.fail(f'{n.id} is unbound here', n)
+        if n.id in self.unbound_memo and self.unbound_memo[n.id][0] == v.tx: return self.unbound_memo[n.id][1]
+        if v.ty[1] == '?' and self.trial == 0: self.fail(f'{n.id} (possibly unbound) has no type yet', n)
+        x = self.fresh('u')
+        self.push_effect({'effects': {'exc'}, 'what': f'read of {n.id}, which may be unbound (UnboundLocalError)', 'kind': 'unbound', 'text': v.tx, 'pat': x}, n)
+        r = Val(v.ty[1], x)
+        self.unbound_memo[n.id] = (v.tx, r)
+        return r
 
     def unnone(self, v, n):
         """round 4: an Optional value where Python needs the value itself (an operand of arithmetic): None is a TypeError"""
@@ -1717,6 +1881,88 @@ class FunTx:
             arms.append(f'{con} s_ => {tx}'); tys.append(ty)
         if any(t != tys[0] for t in tys): self.fail(f'the three classes of segment give different types: {tys!r}', n)
         return Val(tys[0], f'(match {v.tx} with ' + ' | '.join(arms) + ' end)')
+
+    def seg_dispatch_x(self, scrs, f, n, what):
+        """round 5: a call that depends on the classes of one or two segments of unknown class and that, for some of the classes, consumes
+        fuel / may raise.  scrs: the values dispatched on ('SEG', or 'TSEG': a segment with its `_orig`); f(list of (class, value of that
+        class, text of the tag or None)) -> the result for that combination of classes -- at most ONE effectful operation, the call.
+
+            match <x0> with SLine s0_ => match <x1> with SLine s1_ => <arm> | .. end | .. end
+
+        Every arm is lifted to the union U of the effects of the arms (a pure arm v is Some (Returns v), ..); the match is bound around
+        the statement being translated like the result of one call with effects U.  All arms must have the same type."""
+        import itertools
+        tr = self.tr
+        names = ['s_'] if len(scrs) == 1 else [f's{j}_' for j in range(len(scrs))]
+        arms = []
+        for combo in itertools.product(SEGSUM, repeat=len(scrs)):
+            parts = []
+            for (con, t), sc, nm in zip(combo, scrs, names):
+                parts.append((CLASS_OF[t], Val(t, nm), f'(snd {sc.tx})' if sc.ty == 'TSEG' else None))
+            mark = len(self.pending)
+            r = f(parts)
+            ents = self.pending[mark:]
+            del self.pending[mark:]
+            if r.ty == 'K' or r.tx is None and r.ty not in ('FL', 'TUP'): self.fail(f'{what}: dispatch on the class of a segment yields translation-time structure', n)
+            if not ents: eff, raw = frozenset(), tr.text(r)
+            elif len(ents) == 1 and ents[0]['kind'] == 'call' and ents[0]['pat'] == r.tx: eff, raw = frozenset(ents[0]['effects']), ents[0]['text']
+            else: self.fail(f'{what}: more than one effectful operation in an arm of the dispatch', n)
+            arms.append((combo, eff, raw, tr.rtype(r)))
+        ty = arms[0][3]
+        for a_ in arms[1:]:
+            ty = tmatch(ty, a_[3])
+            if ty is None: self.fail(f'{what}: the classes of segment give different types: {[x[3] for x in arms]!r}', n)
+        U = frozenset().union(*[a_[1] for a_ in arms])
+        def lift(eff, raw):
+            if eff == U: return raw
+            if not eff:
+                if 'exc' in U: raw = f'(Returns {raw})'
+                if 'fuel' in U: raw = f'(Some {raw})'
+                return raw
+            if eff == {'exc'}: return f'(Some {raw})'       # U = {fuel, exc}
+            return f'(match {raw} with None => None | Some r_ => Some (Returns r_) end)'      # eff = {fuel}, U = {fuel, exc}
+        def build(j, prefix):
+            if j == len(scrs):
+                a_ = next(x for x in arms if x[0] == tuple(prefix))
+                return lift(a_[1], a_[2])
+            sc = scrs[j]
+            scr = f'(fst {sc.tx})' if sc.ty == 'TSEG' else sc.tx
+            return f'(match {scr} with ' + ' | '.join(f'{con} {names[j]} => {build(j + 1, prefix + [(con, t)])}' for con, t in SEGSUM) + ' end)'
+        text = build(0, [])
+        if not U: return Val(ty, text)
+        r = self.fresh('r')
+        self.push_effect({'effects': set(U), 'what': what, 'kind': 'call', 'text': text, 'pat': r}, n)
+        return Val(ty, r)
+
+    def const_property(self, cls, a):
+        """round 5: a property whose body is `return <literal>` (Segment.hasLoop: `return False`): the literal, else None"""
+        path, fd, defcls = find_def(cls, a)
+        body = [b for b in fd.body if not (isinstance(b, ast.Expr) and isinstance(b.value, ast.Constant))]
+        if 'property' in decorators(fd) and len(body) == 1 and isinstance(body[0], ast.Return) and isinstance(body[0].value, ast.Constant) \
+                and (body[0].value.value is None or type(body[0].value.value) is bool) and len(fd.args.args) == 1:
+            self.tr.fingerprints[f'{path}:{defcls}.{a}'] = fingerprint(fd)
+            return Val('K', const=body[0].value.value)
+        return None
+
+    def seg_property(self, v, a, n):
+        """round 5: a property of a segment of unknown class that is the constant False / None for some of the classes and an Optional
+        value for the others (hasLoop): None where it is the constant"""
+        tr = self.tr
+        consts = {t: self.const_property(CLASS_OF[t], a) for _, t in SEGSUM}
+        if not any(c is not None for c in consts.values()): return None
+        arms, ty = [], None
+        for con, t in SEGSUM:
+            if consts[t] is not None:
+                if consts[t].const not in (None, False): self.fail(f'.{a} is the constant {consts[t].const!r} for a {CLASS_OF[t]}', n)
+                arms.append(f'{con} s_ => None'); continue
+            r = self.purely(lambda: self.callfun(CLASS_OF[t], a, [Val(t, 's_')], n))
+            rt = tr.rtype(r)
+            if not (isinstance(rt, tuple) and rt[0] == 'O'): self.fail(f'.{a} is a constant for some classes of segment and a {rt!r} for a {CLASS_OF[t]}', n)
+            ty = rt if ty is None else tmatch(ty, rt)
+            if ty is None: self.fail(f'.{a}: the classes of segment give different types', n)
+            arms.append(f'{con} s_ => {tr.text(r)}')
+        if ty is None: self.fail(f'.{a} is a constant for every class of segment', n)
+        return Val(ty, f'(match {v.tx} with ' + ' | '.join(arms) + ' end)')
 
     def property_or_method(self, v, a, n):
         cls = CLASS_OF[v.ty]
@@ -1786,7 +2032,24 @@ class FunTx:
             return Val(v.ty[1][k], t)
         self.fail(f'subscript of {v.ty!r} by {i.ty!r}', n)
 
+    def listcomp2(self, n, env):
+        """round 5: [e for x in l1 for y in l2], l1 and l2 dynamic lists that do not depend on x, no conditions, e pure: the items in the
+        order Python produces them, flat_map (fun x => map (fun y => e) l2) l1"""
+        g1, g2 = n.generators
+        if g1.ifs or g2.ifs or g1.is_async or g2.is_async or not isinstance(g1.target, ast.Name) or not isinstance(g2.target, ast.Name) or g1.target.id == g2.target.id:
+            self.fail('comprehension with two generators: only plain names, no conditions', n)
+        x, y = g1.target.id, g2.target.id
+        if any(isinstance(z, ast.Name) and z.id == x for z in ast.walk(g2.iter)): self.fail('the second generator depends on the first', n)
+        l1, l2 = self.expr(g1.iter, env), self.purely(lambda: self.expr(g2.iter, env))
+        for l in (l1, l2):
+            if not (isinstance(l.ty, tuple) and l.ty[0] == 'L' and l.ty[1] != '?' and l.tx is not None): self.fail(f'comprehension with two generators over {l.ty!r}', n)
+        e2 = dict(env); e2[x] = Val(l1.ty[1], 'v_' + x); e2[y] = Val(l2.ty[1], 'v_' + y)
+        el = self.purely(lambda: self.expr(n.elt, e2))
+        if el.ty in ('K', 'FL', 'TUP'): self.fail('comprehension element of translation-time structure', n)
+        return Val(('L', self.tr.rtype(el)), f'(flat_map (fun v_{x} => map (fun v_{y} => {self.tr.text(el) if el.ty != "I" else self.tr.S(el)}) {l2.tx}) {l1.tx})')
+
     def listcomp(self, n, env):
+        if len(n.generators) == 2: return self.listcomp2(n, env)
         if len(n.generators) != 1: self.fail('nested comprehension', n)
         g = n.generators[0]
         if not isinstance(g.target, ast.Name): self.fail('comprehension target', n)
@@ -1845,7 +2108,7 @@ class FunTx:
         if (cls, name) in SELF_TY and (not args or args[0].ty != SELF_TY[(cls, name)]):
             self.fail(f'{cls}.{name} takes its receiver as a {SELF_TY[(cls, name)]!r}', n)
         if (cls, name) in RET_REFINE:
-            want = RET_REFINE[(cls, name)] if not cname.endswith('_ixs') else ('L', 'IXS')
+            want = ('L', 'IXSS') if cname.endswith('_ixss') else ('L', 'IXS') if cname.endswith('_ixs') else RET_REFINE[(cls, name)]
             if tmatch(rty, want) is not None: rty = tmatch(rty, want)
         argt = ' '.join(self.argtext(a) for a in args)
         if (cls, name, consts) in self.tr.inprogress and cname != self.cname:
@@ -1929,6 +2192,10 @@ class FunTx:
                 t = f'match py_index_Z {ent["text"]} with\n  | None => {self.raise_text("PyIndexError")}\n  | Some {ent["pat"]} =>\n  {t}\n  end'
             elif ent['kind'] == 'unbox':
                 t = f'match {ent["text"]} with\n  | None => {self.raise_text("PyNoneError", ctx)}\n  | Some {ent["pat"]} =>\n  {t}\n  end'
+            elif ent['kind'] == 'unbound':
+                t = f'match {ent["text"]} with\n  | None => {self.raise_text("PyUnboundLocalError", ctx)}\n  | Some {ent["pat"]} =>\n  {t}\n  end'
+            elif ent['kind'] == 'minlist':
+                t = f'match {ent["text"]} with\n  | [] => {self.raise_text("PyValueError", ctx)}\n  | {ent["pat"]} =>\n  {t}\n  end'
             elif ent['kind'] == 'popleft':
                 t = f'match {ent["text"]} with\n  | [] => {self.raise_text("PyIndexError")}\n  | {ent["pat"]} =>\n  {t}\n  end'
             elif ent['kind'] == 'head':
@@ -2008,8 +2275,10 @@ class FunTx:
             if isinstance(v.ty, str) and v.ty in CLASS_OF: return Val('K', const=(CLASS_OF[v.ty] == n.args[1].id))
             if v.ty == 'PCLOSED': return Val('K', const=(n.args[1].id == 'BezierPath'))
             self.fail(f'isinstance of {v.ty!r}', n)
+        mark0 = len(self.pending)
         args = [self.expr(a, env) if not isinstance(a, ast.Starred) else Val('STAR', items=self.expr(a.value, env)) for a in n.args]
         kwargs = {k.arg: self.expr(k.value, env) for k in n.keywords}
+        mark1 = len(self.pending)
         # ---- builtins by name
         if isinstance(f, ast.Name) and f.id not in env and f.id not in self.localfuns:
             name = f.id
@@ -2028,6 +2297,12 @@ class FunTx:
                 acc = tr.S(args[0])
                 for b in args[1:]: acc = f'({name}2 O {acc} {tr.S(b)})'
                 return Val('S', acc)
+            if name == 'min' and len(args) == 1 and not kwargs and args[0].ty == ('L', 'S') and args[0].tx is not None and 'exc' in self.effects:
+                # round 5: min(<list of floats>): ValueError on an empty list; else the first item, replaced by a later one that compares
+                # strictly smaller (min2 of Base/Ops.v, as for min(a, b, ..))
+                h, tl = self.fresh('m_hd'), self.fresh('m_tl')
+                self.push_effect({'effects': {'exc'}, 'what': 'min() of a list (ValueError when it is empty)', 'kind': 'minlist', 'text': args[0].tx, 'pat': f'{h} :: {tl}'}, n)
+                return Val('S', f'(fold_left (min2 O) {tl} {h})')
             if name in ('min', 'max') and len(args) == 1 and set(kwargs) == {'key'} and args[0].ty == 'FL' and args[0].items \
                     and kwargs['key'].ty == 'K' and isinstance(kwargs['key'].const, tuple) and kwargs['key'].const[0] == 'lambda':
                 return self.extremum_by(name, args[0], kwargs['key'], n)
@@ -2102,7 +2377,7 @@ class FunTx:
             if name == 'range':
                 if all(a.ty == 'I' for a in args):
                     return Val('FL', items=[Val('I', const=i) for i in range(*[a.const for a in args])])
-                if not kwargs and len(args) in (1, 2) and all(a.ty in ('I', 'Z') for a in args) and self.file in RANGE_Z_FILES:
+                if not kwargs and len(args) in (1, 2) and all(a.ty in ('I', 'Z', 'LEN') for a in args) and self.file in RANGE_Z_FILES:
                     # round 4: range() of run-time ints, the list of them (range_Z of the prelude of Gen/MinDist.v)
                     lo, hi = ('0%Z', self.Zt(args[0])) if len(args) == 1 else (self.Zt(args[0]), self.Zt(args[1]))
                     return Val(('L', 'Z'), f'(range_Z {lo} {hi})')
@@ -2137,6 +2412,10 @@ class FunTx:
                 return self.call_modfun(p, name, args, kwargs, n)
             self.fail(f'call of {name}', n)
         fv = self.expr(f, env)
+        if len(self.pending) > mark1 > mark0:
+            # round 5: Python evaluates the callee expression (`segs[i1]` of segs[i1].intersections(segs[i2])) BEFORE the arguments: the
+            # operations of it that may raise come first
+            self.pending[mark0:] = self.pending[mark1:] + self.pending[mark0:mark1]
         if isinstance(fv.ty, tuple) and fv.ty[0] == 'FUN':
             # a parameter that is a function: applied
             if kwargs or len(args) != len(fv.ty[1]): self.fail('call of a function parameter: arity', n)
@@ -2167,6 +2446,11 @@ class FunTx:
                     if a != 'fromSegments' or len(args) != 1 or kwargs: self.fail(f'BezierPath.{a}', n)
                     l = args[0]
                     lt = tr.rtype(l) if l.ty != 'STAR' else None
+                    if isinstance(lt, tuple) and lt[0] == 'L' and lt[1] in ('EDGE', 'TSEG') and l.tx is not None:
+                        # round 5: segments with their `_orig`: the path as (segments, closed), closed as __init__ sets it
+                        self.check_fromSegments(n)
+                        self.fresh_list_handover(n, n)
+                        return Val(('PATHC', lt[1]), items=[Val(lt, tr.text(l)), Val('K', const=self.path_init_closed(n))])
                     if not (isinstance(lt, tuple) and lt[0] == 'L' and lt[1] in SEGN): self.fail(f'BezierPath.fromSegments of {lt!r}', n)
                     return Val(lt, tr.text(l))
                 path, fd, defcls = find_def(cls, a)
@@ -2210,6 +2494,7 @@ class FunTx:
                 return Val('BB', f'(snd {fv.const[1].tx})')
             if kind == 'asSegments':
                 if args or kwargs: self.fail('asSegments with arguments', n)
+                if isinstance(fv.const[1].ty, tuple) and fv.const[1].ty[0] == 'L': return fv.const[1]      # round 5: of a ('PATHC', t)
                 return Val(('L', 'SEG'), fv.const[1].tx)
             if kind == 'bounddyn':
                 _, a, recv = fv.const
@@ -2218,6 +2503,25 @@ class FunTx:
                     vals = self.bindargs(fd, args, kwargs, n, skip_self=True)
                     vals, consts = self.coerce_args(cls, a, vals, n)
                     return self.callfun(cls, a, [sv] + vals, n, consts)
+                # round 5: a receiver with its `_orig`, an argument that is a segment of unknown class where the callee is specialised on
+                # the class ('A'), or a callee with effects for some class: seg_dispatch_x
+                sig0 = sig_of('Line', a, len(args) + len(kwargs)) if (('*seg', a) in SIG or ('Line', a) in SIG) else []
+                seg_args = [i for i, x in enumerate(args) if x.ty == 'SEG' and i < len(sig0) and sig0[i] == 'A']
+                effectful = any((CLASS_OF[t], a) in EFFECTS or ('*seg', a) in EFFECTS for _, t in SEGSUM) or a == 'intersections'
+                if recv.ty == 'TSEG' or seg_args or effectful:
+                    if len(seg_args) > 1: self.fail(f'.{a}: more than one argument of unknown class', n)
+                    scrs = [recv] + [args[i] for i in seg_args]
+                    def arm(parts):
+                        cls, sv, tag = parts[0]
+                        want = SELF_TY.get((cls, a))
+                        if want == 'EDGE': sv = Val('EDGE', f'({sv.tx}, {tag if tag is not None else "None"})') if tag is not None else self.fail(f'{cls}.{a} needs the `_orig` of its receiver', n)
+                        path, fd, defcls = find_def(cls, a)
+                        args2 = list(args)
+                        for i, (c2, sv2, _) in zip(seg_args, parts[1:]): args2[i] = sv2
+                        vals = self.bindargs(fd, args2, kwargs, n, skip_self=True)
+                        vals, consts = self.coerce_args(cls, a, vals, n)
+                        return self.callfun(cls, a, [sv] + vals, n, consts)
+                    return self.seg_dispatch_x(scrs, arm, n, f'call of .{a} on a segment of unknown class')
                 return self.seg_dispatch(recv, one, n)
             if kind == 'cdfmethod':
                 _, mname, recv = fv.const
@@ -2231,6 +2535,7 @@ class FunTx:
         self.fail(f'call of {ast.dump(f)[:80]}', n)
 
     def modfun_path(self, name):
+        if name in self.local_imports and (self.local_imports[name], name) in MODSIG: return self.local_imports[name]      # round 5
         src, tree = module(self.path)
         for nn in tree.body:
             if isinstance(nn, ast.FunctionDef) and nn.name == name: return self.path
@@ -2247,6 +2552,22 @@ class FunTx:
         vals = self.bindargs(fd, args, kwargs, n, skip_self=False, defpath=path)
         sig = MODSIG[(path, name)]
         if len(sig) != len(vals): self.fail(f'{name}: signature table has {len(sig)} args, call binds {len(vals)}', n)
+        if 'A' in sig:
+            # round 5: a module function specialised on the classes of its segment arguments, called on segments whose class is known
+            # ('seg2' ..) or not ('SEG': dispatched, seg_dispatch_x)
+            idx = [i for i, t in enumerate(sig) if t == 'A']
+            scr_idx = [i for i in idx if vals[i].ty == 'SEG']
+            for i in idx:
+                if vals[i].ty != 'SEG' and vals[i].ty not in ARG_CLASSES[('mod:' + path, name)]: self.fail(f'argument class {vals[i].ty!r} of {name}', n)
+            if len(scr_idx) > 2: self.fail(f'{name}: more than two arguments of unknown class', n)
+            def arm(parts):
+                vs = list(vals)
+                for i, (c2, sv2, _) in zip(scr_idx, parts): vs[i] = sv2
+                consts = tuple(('ty', vs[i].ty) for i in idx)
+                outv = [vs[i] if sig[i] == 'A' else self.coerce_to(vs[i], sig[i], name, n) for i in range(len(sig))]
+                return self.callfun('mod:' + path, name, outv, n, consts)
+            if not scr_idx: return arm([])
+            return self.seg_dispatch_x([vals[i] for i in scr_idx], arm, n, f'call of {name} on segments of unknown class')
         vals = [self.coerce_to(v, t, name, n) for v, t in zip(vals, sig)]
         cname, rty, file = self.tr.function('mod:' + path, name)
         return Val(rty, f'({cname} O {" ".join(self.tr.text(v) for v in vals)})')
@@ -2301,7 +2622,11 @@ class FunTx:
             return Val('UBB', const=dict(UNSET_BOX))
         if name == 'Intersection':
             seg1, t1, seg2, t2 = flat
-            pnt = self.callfun(CLASS_OF[seg1.ty], 'pointAtTime', [seg1, Val('S', tr.S(t1))], n)
+            if seg1.ty == 'SEG':      # round 5: of unknown class
+                t1 = Val('S', tr.S(t1))
+                pnt = self.seg_dispatch(seg1, lambda c, sv: self.callfun(c, 'pointAtTime', [sv, t1], n), n)
+            else: pnt = self.callfun(CLASS_OF[seg1.ty], 'pointAtTime', [seg1, Val('S', tr.S(t1))], n)
+            if self.ixs == 'ixss': return Val('IXSS', f'({self.as_type(seg1, "SEG", n)}, {self.as_type(seg2, "SEG", n)}, ({tr.S(t1)}, {pnt.tx}, {tr.S(t2)}))')      # round 5: with both
             if self.ixs: return Val('IXS', f'({self.as_type(seg1, "SEG", n)}, ({tr.S(t1)}, {pnt.tx}, {tr.S(t2)}))')      # round 4: with seg1
             return Val('IX', f'({tr.S(t1)}, {pnt.tx}, {tr.S(t2)})')
         self.fail(f'constructor {name}', n)
@@ -2389,6 +2714,8 @@ class FunTx:
             # round 4: a Python list / tuple of known length where the declared type is a tuple (nothing may change its length: only indexing is translated)
             return '(' + ', '.join(self.as_type(i, ti, n) for i, ti in zip(v.items, t[1])) + ')'
         if isinstance(t, tuple) and t[0] == 'IT' and isinstance(v.ty, tuple) and v.ty[0] == 'L' and tmatch(v.ty[1], t[1]) is not None: return tr.text(v)
+        if isinstance(t, tuple) and t[0] == 'U' and not (isinstance(tr.rtype(v), tuple) and tr.rtype(v)[0] == 'U'):
+            return f'(Some {self.as_type(v, t[1], n)})'        # round 5: a value assigned to a variable that may be unbound
         if isinstance(t, tuple) and t[0] == 'O' and not (v.ty == 'K' and v.const is None) and tmatch(tr.rtype(v), t) is None:
             return f'(Some {self.as_type(v, t[1], n)})'        # round 4: a plain value where an Optional one is expected
         if isinstance(t, tuple) and t[0] == 'O' and v.ty == 'K' and v.const is None: return 'None'
@@ -2519,6 +2846,19 @@ class FunTx:
                 return self.retext(r, t)
             e2[name] = v
             return k(e2)
+        if isinstance(v.ty, tuple) and v.ty[0] == 'PATHC' and v.tx is None:
+            # round 5: a path known by its two components
+            lets, items = [], []
+            for i, it in enumerate(v.items):
+                if it.tx is not None and not tr.atomic(it) and it.ty not in ('I', 'K'):
+                    nm = self.fresh(f'v_{name}{i}')
+                    lets.append((nm, it.tx)); items.append(Val(it.ty, nm))
+                else: items.append(it)
+            e2[name] = Val(v.ty, items=items)
+            r = k(e2)
+            t = tr.text(r)
+            for nm, tx in reversed(lets): t = f'let {nm} := {tx} in\n  {t}'
+            return self.retext(r, t)
         nm = self.fresh('v_' + name)
         e2[name] = Val(v.ty, nm)
         r = k(e2)
@@ -2531,6 +2871,7 @@ class FunTx:
     def block(self, stmts, env, cont, ret):
         if not stmts: return cont(env)
         mark = len(self.pending)
+        self.unbound_memo = {}
         return self.flush(mark, self.block1(stmts, env, cont, ret), stmts[0])
 
     def block1(self, stmts, env, cont, ret):
@@ -2539,6 +2880,15 @@ class FunTx:
         k = lambda e: self.block(rest, e, cont, ret)
         if isinstance(s, ast.Expr) and isinstance(s.value, ast.Constant): return k(env)
         if isinstance(s, ast.Pass): return k(env)
+        if isinstance(s, ast.ImportFrom) and s.module and s.module.startswith('beziers.') and s.level == 0 and self.ctx_stack == ['fun'] and s in self.fd.body:
+            # round 5: a function-level `from beziers.x import f` (unaliased, at the top level of the body): f is that module's function
+            # from here on -- provided the name is otherwise unused as a variable
+            for a_ in s.names:
+                if a_.asname is not None or a_.name in env or a_.name in self.localfuns or a_.name == '*': self.fail('function-level import that rebinds or renames a name', s)
+                if sum(1 for y in ast.walk(self.fd) if isinstance(y, ast.Name) and y.id == a_.name and isinstance(y.ctx, (ast.Store, ast.Del))): self.fail(f'{a_.name} is imported and assigned', s)
+                p_ = s.module.split('.', 1)[1].replace('.', '/')
+                self.local_imports[a_.name] = p_ + '.py' if os.path.exists(os.path.join(SRC, p_ + '.py')) else p_ + '/__init__.py'
+            return k(env)
         if isinstance(s, (ast.Import, ast.ImportFrom)): return k(env)
         if isinstance(s, ast.Return):
             v = self.expr(s.value, env) if s.value is not None else Val('K', const=None)
@@ -2627,6 +2977,11 @@ class FunTx:
                 e2 = dict(env); e2[D] = Val(dv.ty, tl)
                 return self.bind(t.id, Val(dv.ty[1], h), e2, k)
             v = self.ref_or_value(s.value, env) if isinstance(t, ast.Name) else self.expr(s.value, env)
+            if self.unbound_memo:
+                # round 5: the statement has read variables that might have been unbound: from here on they are known to be bound
+                env = dict(env)
+                for nm_, (tx_, val_) in self.unbound_memo.items():
+                    if nm_ in env and env[nm_].tx == tx_ and not (isinstance(t, ast.Name) and t.id == nm_): env[nm_] = val_
             nx = rest[0] if rest else None
             if isinstance(t, ast.Name) and isinstance(nx, ast.Assign) and len(nx.targets) == 1 and isinstance(nx.targets[0], ast.Attribute) \
                     and nx.targets[0].attr == '_orig' and isinstance(nx.targets[0].value, ast.Name) and nx.targets[0].value.id == t.id:
@@ -2727,6 +3082,12 @@ class FunTx:
                 return k(e2)
             if recv.ty in RECORDS:
                 return self.bind(t.value.id, self.with_field(recv, t.attr, v, s), env, k)
+            if isinstance(recv.ty, tuple) and recv.ty[0] == 'PATHC' and t.attr == 'closed':
+                # round 5: p.closed = v, p a path the function has built itself (known by its components: nothing else refers to it)
+                if recv.tx is not None: self.fail('.closed set on a path that the function has not built itself', s)
+                self.path_init_closed(s)
+                if tr.rtype(v) != 'B': self.fail(f'.closed set to a {tr.rtype(v)!r}', s)
+                return self.bind(t.value.id, Val(recv.ty, items=[recv.items[0], v]), env, k)
             if isinstance(recv.ty, tuple) and recv.ty[0] == 'OBJ':
                 # round 4: self.a = v on an object with mutable attributes: the same object with the attribute replaced
                 st = dict(OBJECTS[recv.ty[1]]['state'])
@@ -3012,9 +3373,13 @@ class FunTx:
                         a = Val(('L', a.ty[1]), a.tx)
                     if lty == 'FL' and a.ty == 'FL': return self.bind(nm, Val('FL', items=recv.items + a.items), env, k)
                     if lty == 'FL': recv = Val(a.ty, tr.text(Val('FL', items=recv.items)) if recv.items else '[]')
-                    return self.bind(nm, Val(recv.ty, f'({recv.tx} ++ {tr.text(a)})'), env, k)
+                    nty = recv.ty
+                    if isinstance(nty, tuple) and nty[0] == 'L' and nty[1] == '?' and tmatch(nty, tr.rtype(a)) is not None: nty = tmatch(nty, tr.rtype(a))      # round 5: a list whose element type is not known yet
+                    return self.bind(nm, Val(nty, f'({recv.tx} ++ {tr.text(a)})'), env, k)
                 if f.attr == 'sort':
+                    if args or kwargs: self.fail('.sort(..) with arguments', s)      # (round 5: was silently ignored)
                     if lty == 'FL': recv = Val(tr.rtype(recv), tr.text(recv))
+                    if recv.ty != ('L', 'S'): self.fail(f'.sort() of a {recv.ty!r} (only a list of floats)', s)
                     return self.bind(nm, Val(recv.ty, f'(sort_ O {recv.tx})'), env, k)
                 if f.attr == 'pop' and lty != 'FL' and len(args) == 1 and not kwargs and args[0].ty == 'I' and args[0].const == 0:
                     # l.pop(0) as a statement (the popped item is dropped): only where l is known to be h :: t
@@ -3255,6 +3620,17 @@ class FunTx:
 
     def stmt_if(self, s, rest, env, cont, ret):
         tr = self.tr
+        t0 = s.test
+        if isinstance(t0, ast.BoolOp) and isinstance(t0.op, ast.And) and len(t0.values) >= 2 and isinstance(t0.values[0], ast.Name) and t0.values[0].id in env:
+            x0 = env[t0.values[0].id]
+            if isinstance(x0.ty, tuple) and x0.ty[0] == 'O' and isinstance(x0.ty[1], tuple) and x0.ty[1][0] == 'T' and x0.tx is not None:
+                # round 5: `if X and <rest>: A else: B`, X an Optional tuple (False / None, or a tuple: always truthy): Python evaluates <rest>
+                # only when X is a tuple, so this is `if X: (if <rest>: A else: B) else: B`, and the inner statement sees the tuple
+                rt = t0.values[1] if len(t0.values) == 2 else ast.BoolOp(op=ast.And(), values=list(t0.values[1:]))
+                inner = ast.copy_location(ast.If(test=rt, body=s.body, orelse=s.orelse), s)
+                outer = ast.copy_location(ast.If(test=t0.values[0], body=[inner], orelse=s.orelse), s)
+                ast.fix_missing_locations(outer)
+                return self.stmt_if(outer, rest, env, cont, ret)
         sx = self.seg_len_var(s.test, env)
         if sx is not None: return self.split_on_class(sx, s, rest, env, cont, ret)
         da = self.dict_alias_idiom(s, rest, env)
@@ -3888,10 +4264,13 @@ class FunTx:
         if bt is None: return tys
         return [tmatch(t, b) if tmatch(t, b) is not None else t for t, b in zip(tys, bt)]
 
-    def loop_names(self, s, rest, env, targets):
+    def loop_names(self, s, rest, env, targets, unbound=None):
         names = [v for v in self.assigned(s.body, env) if v not in targets]
         for v in names:
-            if v not in env and (any(v in l for l in self.live_stack) or self.reads_free(rest, v)): self.fail(f'variable {v} first assigned inside a loop and used after it', s)
+            if v not in env and (any(v in l for l in self.live_stack) or self.reads_free(rest, v)):
+                # round 5: (fold_loop_x, in a function that may raise) such a variable is carried as ('U', t): None while it is unbound
+                if unbound is not None and 'exc' in self.effects and v not in self.cells and v not in self.closure_params: unbound.append(v); continue
+                self.fail(f'variable {v} first assigned inside a loop and used after it', s)
         for v in targets:
             if any(v in l for l in self.live_stack) or self.reads_free(rest, v): self.fail(f'loop variable {v} used after the loop', s)
         return [v for v in names if v in env]
@@ -3951,7 +4330,13 @@ class FunTx:
             if 'exc' in fx_: tx = f'(Returns {tx})'
             if 'fuel' in fx_: tx = f'(Some {tx})'
             return tx
-        names = self.loop_names(s, rest, env, targets)
+        ub = []
+        names = self.loop_names(s, rest, env, targets, unbound=ub)
+        if ub:
+            # round 5: variables first assigned in the body and read after the loop: unbound (None) on entry
+            env = dict(env); e1 = dict(e1)
+            for v in ub: env[v] = Val(('U', '?'), 'None'); e1[v] = env[v]
+            names = [v for v in self.assigned(s.body, env) if v in names or v in ub]
         if not names: self.fail('a loop whose body may raise and that carries no variable', s)
         accs = [self.need(env, v, s) for v in names]
         def acc_type(v):
@@ -3962,9 +4347,9 @@ class FunTx:
         def absorb(t, u):
             m = tmatch(t, u)
             if m is not None: return m
-            if isinstance(t, tuple) and t[0] == 'O' and not (isinstance(u, tuple) and u[0] == 'O'):
+            if isinstance(t, tuple) and t[0] in ('O', 'U') and not (isinstance(u, tuple) and u[0] == t[0]):
                 m = absorb(t[1], u)
-                return ('O', m) if m is not None else None
+                return (t[0], m) if m is not None else None
             if isinstance(t, tuple) and isinstance(u, tuple) and t[0] == 'T' and u[0] == 'T' and len(t[1]) == len(u[1]):
                 ms = [absorb(x, y) for x, y in zip(t[1], u[1])]
                 return ('T', tuple(ms)) if all(m is not None for m in ms) else None
@@ -3973,7 +4358,7 @@ class FunTx:
         def unresolved(t):
             if t == '?': return True
             if isinstance(t, tuple) and t[0] == 'T': return any(unresolved(x) for x in t[1])
-            if isinstance(t, tuple) and t[0] in ('L', 'DQ', 'O', 'X', 'F'): return unresolved(t[1])
+            if isinstance(t, tuple) and t[0] in ('L', 'DQ', 'O', 'X', 'F', 'U'): return unresolved(t[1])
             return False
 
         def attempt(tys, final):
@@ -4233,6 +4618,10 @@ MINDIST_TARGETS = [('MinimumCurveDistanceFinder', 'minDist')] + \
 # round 4: the winding number
 WINDING_TARGETS = [('BezierPath', 'bounds'), ('BezierPath', 'windingNumberOfPoint'), ('BezierPath', 'pointIsInside')]
 TARGETS += CURVECURVE_TARGETS + MINDIST_TARGETS + WINDING_TARGETS
+# round 5: the path-level drivers
+PATHOPS_TARGETS = [('BezierPath', 'flatten'), ('BezierPath', 'getSelfIntersections'), ('BezierPath', 'distanceToPath'),
+                   ('BezierPath', 'signed_area'), ('BezierPath', 'area'), ('BezierPath', 'direction')]
+TARGETS += PATHOPS_TARGETS
 
 # fixed text at the top of a generated file: the types and list helpers the effectful definitions are written with
 PRELUDE = {'Sample': '''(* A function with a data-dependent `while` loop takes [fuel : nat] -- the number of iterations EVERY loop invocation may
@@ -4241,7 +4630,8 @@ PRELUDE = {'Sample': '''(* A function with a data-dependent `while` loop takes [
    as everywhere in Gen, `/` is the total [dvd]. *)
 Inductive pyexc : Set := PyIndexError | PyValueError | PyOverflowError
   | PyAssertionError   (* a failing `assert` (the interpreter is not run with -O) *)
-  | PyNoneError.       (* None where an object is needed: CPython raises AttributeError or TypeError, the model does not say which *)
+  | PyNoneError        (* None where an object is needed: CPython raises AttributeError or TypeError, the model does not say which *)
+  | PyUnboundLocalError.  (* a local variable read before any assignment to it has been executed *)
 Inductive outcome (A : Type) : Type := Returns (a : A) | Raises (e : pyexc).
 Arguments Returns {A}. Arguments Raises {A}.
 (* l[-1]; None = IndexError *)
@@ -4406,6 +4796,14 @@ PRELUDE['Winding'] = '''(* path/__init__.py: BezierPath.bounds / windingNumberOf
    hash(x) << 32 ^ hash(y) (assumed injective on the pairs that occur) that is: equal coordinates as floats and Point.__eq__. *)
 Definition point_keyeq {T : Type} (O : Ops T) (stored k : pt T) : bool :=
   eqb O (px stored) (px k) && eqb O (py stored) (py k) && Point___eq__ O stored k.
+
+'''
+PRELUDE['PathOps'] = '''(* path/__init__.py: BezierPath.flatten / distanceToPath / signed_area / area / direction; utils/booleanoperationsmixin.py:
+   getSelfIntersections.  A path whose `closed` flag matters is the pair (segments, closed); a segment of it comes with its `_orig`
+   attribute (None: it has none), as the edges the flatteners produce.  A call on a segment of unknown class is a match on the class,
+   every arm lifted to the union of the effects of the arms.  An Intersection is kept together with both its segments:
+   [(segment T * segment T * (T * pt T * T))] (seg1, seg2, (t1, point, t2)), the definitions suffixed _ixss below.  A local variable
+   that may still be unbound when it is read is an option; reading it then is [Raises PyUnboundLocalError]. *)
 
 '''
 
